@@ -43,8 +43,7 @@ CONSTANTS NDev, NPaths,
           Real,          \* TRUE: byte sizes of the real format (A = 8, header 16, directory 336); FALSE: scaled down
           NKinds,        \* number of frame kinds used (of FrameKinds)
           NScripts, MaxFaultAt, MaxDepth,
-          FIX_TIFF, FIX_SBS, FIX_META,
-          Export         \* TRUE: keep the history of calls (witness paths for the replay export)
+          FIX_TIFF, FIX_SBS, FIX_META
 
 A == IF Real THEN 8 ELSE 2                 \* alignment of sections
 HdrSz == 2 * A                             \* header: magic word + first-directory word
@@ -67,7 +66,8 @@ RUNNING == 3
 VARIABLES dev, os, gh, used, err, crashed, lastAct, hist
 vars == <<dev, os, gh, used, err, crashed, lastAct, hist>>
 
-Lim(d) == IF d = 1 THEN [cyc |-> MaxCycles, app |-> MaxAppends] ELSE [cyc |-> 1, app |-> 1]
+\* the other instances only compete for descriptor numbers: one acquisition, nothing appended
+Lim(d) == IF d = 1 THEN [cyc |-> MaxCycles, app |-> MaxAppends] ELSE [cyc |-> 1, app |-> 0]
 NoDev == [open |-> FALSE, kind |-> "none", ostate |-> CLOSED, opath |-> 0, ometa |-> FALSE,
           state |-> CLOSED, fid |-> 0, lastOff |-> 0, lastLink |-> 0, count |-> 0, file |-> 0, meta |-> FALSE,
           cyc |-> 0, napp |-> 0]
@@ -245,7 +245,7 @@ Commit(m, d, t, g, label) ==
   /\ hist' = (IF Export THEN Append(hist, lastAct') ELSE hist)
 
 DoOpen(d, kind) ==
-  /\ ~dev[d].open /\ (d = 1 => kind \in Kinds1)
+  /\ ~dev[d].open /\ (IF d = 1 THEN kind \in Kinds1 ELSE kind = "tiff") /\ dev[d].kind \in {"none", kind}
   /\ Commit(TMachine(os, <<>>, NoDev), d,
             [NoDev EXCEPT !.open = TRUE, !.kind = kind, !.state = AWAIT, !.cyc = dev[d].cyc], NoGh, Label("open", d, <<kind>>, <<>>))
   /\ UNCHANGED used
@@ -254,7 +254,10 @@ DoSet(d, meta) ==
   /\ dev[d].open /\ Hal(dev[d]) # RUNNING /\ used < NPaths /\ dev[d].cyc < Lim(d).cyc
   /\ LET p == used + 1
          t == dev[d]
-         m == IF t.kind = "sbs" THEN [TMachine(os, <<>>, [t EXCEPT !.opath = p, !.ometa = meta]) EXCEPT !.st = ARMED]
+         \* side_by_side_tiff_set: validation touches no file; as coded it rejects a configuration without metadata
+         \* (validate_json refuses the 1-byte empty string the properties library stores for "no metadata")
+         m == IF t.kind = "sbs" THEN (IF meta THEN [TMachine(os, <<>>, [t EXCEPT !.opath = p, !.ometa = meta]) EXCEPT !.st = ARMED]
+                                      ELSE [TMachine(os, <<>>, t) EXCEPT !.st = AWAIT])
               ELSE TSet(TMachine(os, <<>>, t), d, p, meta) IN
      Commit(m, d, HalStore(m), [gh[d] EXCEPT !.fresh = (m.st = ARMED), !.want = meta],
             Label("set", d, <<p, IF meta THEN 1 ELSE 0>>, <<>>))
@@ -300,7 +303,7 @@ DoClose(d) ==
                ELSE TMachine(os, <<>>, t)
          m2 == IF sbs THEN SDestroyV(m1, d) ELSE TDestroyV(m1, d)
          m == IF ~m2.overflow /\ Owns(OsOf(m2), d) # {} THEN Bad(m2, "DescriptorLeak") ELSE m2 IN
-     Commit(m, d, [NoDev EXCEPT !.cyc = t.cyc], NoGh, Label("close", d, <<>>, <<>>))
+     Commit(m, d, [NoDev EXCEPT !.cyc = t.cyc, !.kind = t.kind], NoGh, Label("close", d, <<>>, <<>>))
   /\ UNCHANGED used
 
 Packets == UNION {[1..n -> 1..NKinds] : n \in 1..MaxPacket}
